@@ -161,12 +161,12 @@ EXTRA = {
     'C11': ' All ordered pairs of CNOT placements N<=4 and triples N<=3 inside circuits (plain / compiled, both directions); every named gate rebuilt after another gate map was edited in place. Named gates with numpy integer qubit indices; a gate placed into an already compiled circuit and compiled again.',
     'C12': ' Every constructor called again after an earlier result was edited in place (both packages, N<=3); export -> sign-only operation -> export histories of to_qutip. Parsed operators as edit sources; torch stabilizer_state in five input formats incl. token tables.',
     'C13': ' 25 legs now: entropy on all mixed N=3 lists and all 4-gate circuit programs over CX01,S1,M02,X2 at N=3 in the quick tier. Circuit histories on both sides: compile -> extend -> compile, and the ORIGINAL recompiled after its copy was extended and compiled.',
-    'C14': ' Circuit.backward with the default and every explicit record also after a second forward run on the same circuit object. Configuration compile() after every take()/measure().',
+    'C14': ' Circuit.backward with the default and every explicit record also after a second forward run on the same circuit object. Configuration compile() after every take()/measure(). numpy.int64 qubit indices.',
     'C15': ' reduce / sums at N=5..9 against a dictionary oracle; arithmetic -> in-place operation -> arithmetic on one operand object vs a fresh object. Copy -> masked operation on the copy -> original; pauli_identity / pauli_zero after earlier results were edited.',
     'C16': ' torchclifford random_clifford(3): 12 (96) of the 2016 subtrees below a first anticommuting pair; thorough: the whole coin tree of 24/26 coins (23.2 M leaves). Sampler and povm histories under forced generator states: result overwritten -> sampled again; samples of one povm call kept and re-read.',
     'C17': ' Results of compose / inverse overwritten in place or kept across later calls (operands and earlier results unchanged), both packages. clifford_rotation_gate after its source was edited in place; torch circuits of inferred size read, grown, read again.',
     'C18': ' diagonalize called again after every array of its first result was overwritten. diagonalize -> in-place change of the same state -> diagonalize again (both packages). Operator circuits also compiled, copied-then-compiled and run backward (both packages).',
-    'C19': ' density_matrix for states with 8..11 (12) active stabilizers against the reference-generated group; fixed-circuit shadows on 60 (300) N=3 states of every rank.',
+    'C19': ' density_matrix for states with 8..11 (12) active stabilizers against the reference-generated group; fixed-circuit shadows on 60 (300) N=3 states of every rank. torchclifford sample (all scripted randint streams) and density_matrix on pool tableaux of every rank.',
     'C20': ' Every description also with an explicit N=; parse again after the first result was overwritten; negation / unit scalars on one reused operand in both torch phase layouts and on slice views. torch: one- and multi-element long / bool tensors as selectors.',
 }
 
